@@ -263,6 +263,35 @@ void h_lookup (void)
 	OBL (g_nk == 0 && g_nv == 0, "C14 lookup destroys nothing");
 	if (m) CANARY ("found"); else CANARY ("not found");
 }
+/* ================================================================== two-step histories: observer, update, observer
+ * The one-operation units start from a freshly built tree OBJECT (all fields the harness knows are symbolic, anything else is
+ * as p_tree_new_full leaves it), so state that an operation leaves behind for the next one -- a cache, a "last found" slot, a
+ * lazily maintained counter -- is seen only if two operations run on the same object.  lookup(k1); update(k2); lookup(k1)
+ * with k1, k2 any keys (equal as keys but different objects included), update = insert (new or replace) or remove. */
+void h_sequence (void)
+{
+	PTree *t = build_tree (nondet_bool ());
+	int k1 = nondet_int (), k2 = nondet_int (); unsigned tag1 = nondet_uint (), tag2 = nondet_uint ();
+	__CPROVER_assume (k1 > 0 && k1 < KMAX && k2 > 0 && k2 < KMAX && tag1 < 16 && tag2 < 16);
+	ppointer key1 = KEYARG (k1, tag1), key2 = KEYARG (k2, tag2);
+	ppointer v1 = NULL; _Bool m1 = pre_member (k1, &v1, NULL); _Bool m2 = pre_member (k2, NULL, NULL);
+	ppointer r1 = p_tree_lookup (t, key1);
+	OBL (r1 == (m1 ? v1 : NULL), "C12 history: first lookup gives the current value or NULL");
+	_Bool do_insert = nondet_bool ();
+	unsigned nv = nondet_uint (); __CPROVER_assume (nv < 64); ppointer value = (ppointer) (unsigned long) (nv * 8 + 4);
+	g_alloc_failed = 0;
+	pboolean rr = FALSE;
+	if (do_insert) p_tree_insert (t, key2, value); else rr = p_tree_remove (t, key2);
+	ppointer r2 = p_tree_lookup (t, key1);
+	ppointer want = do_insert ? ((k1 == k2 && (m2 || !g_alloc_failed)) ? value : (m1 ? v1 : NULL)) : ((k1 == k2) ? NULL : (m1 ? v1 : NULL));
+	OBL (r2 == want, "C12 history: a lookup after an insert/remove sees the update (and only the update), whatever was looked up before");
+	OBL (do_insert || (rr == TRUE) == m2, "C12 history: remove after a lookup reports whether the key existed");
+	ppointer r3 = p_tree_lookup (t, key2);
+	OBL (r3 == (do_insert ? ((m2 || !g_alloc_failed) ? value : NULL) : NULL), "C12 history: the updated key itself reads back as updated");
+	if (m1 && k1 == k2 && tag1 != tag2 && do_insert) CANARY ("replace through another key object after a hit");
+	if (m1 && k1 == k2 && tag1 != tag2 && !do_insert) CANARY ("remove through another key object after a hit");
+	if (!m1 && k1 == k2 && do_insert && !g_alloc_failed) CANARY ("insert after a miss");
+}
 int g_visit[NPOS + 1]; ppointer g_visit_val[NPOS + 1]; unsigned g_nvisit, g_stop_at;
 static pboolean visitor (ppointer key, ppointer value, ppointer data)
 {
